@@ -92,7 +92,9 @@ func MarshalPrivateKey(out []byte, x *PrivateKey) []byte {
 		},
 	})
 	if err != nil {
-		panic(err)
+		// an algorithm id without a DER form (the zero OID, a single arc): nothing is appended,
+		// as in MarshalPublicKey; ParsePrivateKey rejects the result
+		return out
 	}
 	return append(out, data...)
 }
